@@ -576,6 +576,9 @@ func (m *mgFunc) stmt(s ast.Stmt) string {
 		if c, ok := x.X.(*ast.CallExpr); ok {
 			n := m.callName(c)
 			if droppedCall(n) || isLogCall(x.X) {
+				if cs := logArgCalls(x.X); len(cs) > 0 && isLogCall(x.X) {
+					return "(.exprS (.call \"log-args\" " + chain(m.exprs(c.Args)) + "))"
+				}
 				return ""
 			}
 			if n == "delete" && len(c.Args) == 2 {
